@@ -841,7 +841,7 @@ pub fn sets(a: &Args, rep: &mut Report) {
         let elem = *hr.pick(&[ElemKind::U64, ElemKind::TrInline, ElemKind::TrHeap]);
         let mode = *hr.pick(&[HMode::Good, HMode::Good, HMode::Identity, HMode::SameGroup, HMode::SameTag, HMode::LowEntropy, HMode::Const]);
         let slow = matches!(mode, HMode::Const | HMode::LowEntropy | HMode::SameGroup);
-        let cfg = Cfg { elem, bh: Bh::new(mode, hr.below(4)), cap: *hr.pick(&[usize::MAX, 0, 3, 7, 14, 28]), check_every: 1, cursor_every: 1, focus: static_prop(&rep.prop) };
+        let cfg = Cfg { elem, bh: Bh::new(mode, hr.below(4)), cap: *hr.pick(&[usize::MAX, 0, 3, 7, 14, 28]), check_every: 1, cursor_every: 1, focus: static_prop(&rep.prop), ledger_only: false };
         let keyspace = *hr.pick(&[8u64, 40, 200, 1000]);
         let n = if small { 20 + hr.usize(40) } else { 40 + hr.usize(260) };
         let max_len = if small { 60 } else if slow { 140 } else { 500 };
